@@ -152,6 +152,12 @@ class JointRecurrenceNetwork(JointRecurrencePlot, Network):
             raise ValueError("Delay value (lag) must not exceed length of \
                              time series!")
 
+    def __cache_state__(self):
+        #  state of BOTH parent classes (the method resolution order would
+        #  otherwise hide the adjacency mutation counter of Network)
+        return (JointRecurrencePlot.__cache_state__(self)
+                + Network.__cache_state__(self))
+
     def __str__(self):
         """
         Returns a string representation.
